@@ -483,6 +483,13 @@ def run_method(E, m, T, r, mode, after_call=None, args=None, excused=None):
         if after_call:
             after_call(a, res)
         return
+    verify_result(E, m, T, a, res, label)
+    if after_call:
+        after_call(a, res)
+
+
+def verify_result(E, m, T, a, res, label, qprefix='q'):
+    """Obligations: `res` is what numpy slicing of the decoded volume denotes for method m with arguments a."""
     d = m.denote(T, a)
     if d is None:
         E.check(False, label + ': returned although the arguments denote no real item')
@@ -501,7 +508,7 @@ def run_method(E, m, T, r, mode, after_call=None, args=None, excused=None):
     E.check(b_and(*[rs == es for rs, es in zip(res.shape, shape)]), label + ': result shape')
     q = []
     for k, s in enumerate(shape):
-        qq = E.fresh('q%d' % k)
+        qq = E.fresh('%s%d' % (qprefix, k))
         E.assume(b_and(qq >= 0, qq < s, qq < res.shape[k]))
         q.append(qq)
     E.reached(label + ':probe')
@@ -511,8 +518,6 @@ def run_method(E, m, T, r, mode, after_call=None, args=None, excused=None):
         expect_voxel_3d(E, T, got, v[0], v[1], v[2], label + ': element is the spec-decoded voxel')
     else:
         expect_voxel_2d(E, T, got, v[0], v[1], label + ': element is the spec-decoded sample')
-    if after_call:
-        after_call(a, res)
 
 
 def item_fn(method, bs, rate, nb, mode, opts=None):
@@ -589,6 +594,20 @@ def item_fn(method, bs, rate, nb, mode, opts=None):
         if fault is not None:
             fault.opened()
             excused = fault.excuse
+        if opts.get('faulted_first_call'):
+            # an earlier call of the same method on this reader met the fault (and should have raised); the OBSERVED call
+            # runs without any fault and must return the true data (no state may survive the failed call)
+            a0 = [E.fresh('f_' + n) for n in m.argn]
+            E.assume(m.inr(T, a0))
+            try:
+                with Quiet():
+                    m.call(r, a0)
+            except Exception:
+                pass
+            if not fault.fired:
+                raise Infeasible()
+            fault.active = False
+            excused = None
         if opts.get('truncate'):
             excused = shenv.Excuse(lambda: any(not implied(got == n) for (_, n, got) in st.reads), must_fire=False)
         if opts.get('warm'):
